@@ -291,3 +291,10 @@ pub fn guard<T>(what: &str, input_len: usize, f: impl FnOnce() -> T) -> Result<T
         }
     }
 }
+
+/// (largest single allocation request, peak live growth) recorded during the most recent outermost
+/// `guard` call of this thread. Lets a check apply a bound tighter than `SINGLE_LIMIT` where the
+/// legal maximum of the code under test is known (C10 `alloc_caps`, `serde_inputs`).
+pub fn last_alloc_stats() -> (usize, isize) {
+    (MAX_REQ.with(|m| m.get()), PEAK.with(|p| p.get()))
+}
